@@ -47,11 +47,21 @@ deriving Repr, DecidableEq
 /-- the request as nni_http_write_req puts it on the wire -/
 def request (m : Msg) (body : Bytes) : Bytes := emitReq m ++ body
 
-/-- application side of a transaction: nni_http_conn_reset, method, uri, body (copy_body sets Content-Length) -/
-def prepare (m : Msg) (meth uri body : Bytes) : Msg :=
-  let m1 := setUri (setMethod (connReset m) meth) uri
+/-- application side of a transaction: nni_http_conn_reset (unless the application KEEPS the request it built:
+    `keep`), method, uri, body (copy_body sets Content-Length; without a new body the old one, if kept, stays) -/
+def prepare (keep : Bool) (m : Msg) (meth uri body : Bytes) : Msg :=
+  let m1 := setUri (setMethod (if keep then m else connReset m) meth) uri
   if body.isEmpty then m1
   else { m1 with reqHdrs := setStatic m1.reqHdrs 3 sContentLength ((decimal body.length).take (clenSize - 1)) }
+
+/-- the request body attached to the connection after `prepare` -/
+def prepareBody (keep : Bool) (old body : Bytes) : Bytes := if body.isEmpty then (if keep then old else []) else body
+
+/-- the request as it reaches the stream (http_prepare) -/
+def requestOut (strict : Bool) (m : Msg) (body : Bytes) : Bytes := HttpSrv.prepared strict false (emitReq m) ++ body
+
+/-- `true`: nni_http_transact_conn calls nni_http_res_reset before it sends the request (extracted) -/
+def cliResets : Bool := Generated.httpCliResetsResponse
 
 /-- outcome of nni_http_read_res over the bytes available -/
 inductive ResHead where
@@ -70,9 +80,12 @@ def readResHead (m0 : Msg) (s : Bytes) : ResHead :=
   else if r.rv = rvOk then .done r.c.m (r.c.taken - r.c.pend.length)
   else .fail r.rv
 
-/-- http_txn_cb from HTTP_RECVING on, with `rd` reading the head -/
-def transactWith (rd : Msg → Bytes → ResHead) (m : Msg) (s : Bytes) : Outcome :=
-  match rd (resReset m) s with
+/-- the state the response is read into: with the reset, or (`rs = false`) only nni_http_set_status(conn, 0, NULL) -/
+def resResetAs (rs : Bool) (m : Msg) : Msg := if rs then resReset m else { m with code := 0, rsn := none }
+
+/-- http_txn_cb from HTTP_RECVING on, with `rd` reading the head; `rs`: the response object was reset before -/
+def transactAs (rs : Bool) (rd : Msg → Bytes → ResHead) (m : Msg) (s : Bytes) : Outcome :=
+  match rd (resResetAs rs m) s with
   | .more => .waiting
   | .fail rv => .error rv
   | .done m1 n =>
@@ -85,6 +98,9 @@ def transactWith (rd : Msg → Bytes → ResHead) (m : Msg) (s : Bytes) : Outcom
       if p.2.2 = Chunk.rvAgain then .waiting
       else if p.2.2 = Chunk.rvOk then .ok m1 (Chunk.body p.1) (n + p.2.1)
       else .error p.2.2
+
+/-- the code as it is meant (and as the theorems speak of it): with the reset -/
+def transactWith (rd : Msg → Bytes → ResHead) (m : Msg) (s : Bytes) : Outcome := transactAs true rd m s
 
 /-- nni_http_transact_conn after the request was written: `m` = the connection's message state, `s` = the response
     bytes available -/
